@@ -1,6 +1,10 @@
 package ircserver
 
-import "gopkg.in/sorcix/irc.v2"
+import (
+	"sort"
+
+	"gopkg.in/sorcix/irc.v2"
+)
 
 func init() {
 	Commands["server_QUIT"] = &ircCommand{
@@ -14,10 +18,19 @@ func (i *IRCServer) cmdServerQuit(s *Session, reply *Replyctx, msg *irc.Message)
 		i.deleteSessionLocked(s, reply.msgid)
 		// For services, we also need to delete all sessions that share the
 		// same .Id, but have a different .Reply.
+		// Collect and sort the sessions first: the order of the resulting
+		// QUIT messages must not depend on the map iteration order.
+		var subsessions []*Session
 		for id, session := range i.sessions {
 			if id.Id != s.Id.Id || id.Reply == 0 {
 				continue
 			}
+			subsessions = append(subsessions, session)
+		}
+		sort.Slice(subsessions, func(a, b int) bool {
+			return subsessions[a].Id.Reply < subsessions[b].Id.Reply
+		})
+		for _, session := range subsessions {
 			i.sendCommonChannels(session, reply, &irc.Message{
 				Prefix:  &session.ircPrefix,
 				Command: irc.QUIT,
